@@ -390,6 +390,25 @@ pub(crate) fn native_replay() -> bool {
     unsafe { NATIVE_REPLAY }
 }
 
+/// Replacement for `BytesMut::extend_from_slice` that grows the buffer by the slice's length without copying it: for
+/// instances that examine only lengths and the bytes written before the call (the appended bytes stay unexamined).
+pub(crate) fn bytesmut_extend_len_only(b: &mut bytes::BytesMut, extend: &[u8]) {
+    let cnt = extend.len();
+    b.reserve(cnt);
+    unsafe { bytes::BufMut::advance_mut(b, cnt) };
+}
+
+/// A `Bytes` of `len` bytes whose contents are never read by the code under test (see `bytesmut_extend_len_only`):
+/// in symex it is a slice header over a one-byte static - no 64 KiB object is created -, in a native replay a real
+/// zero-filled buffer.
+pub(crate) fn unread_bytes(len: usize) -> bytes::Bytes {
+    static ONE: [u8; 1] = [0];
+    if native_replay() {
+        return bytes::Bytes::from(vec![0u8; len]);
+    }
+    bytes::Bytes::from_static(unsafe { std::slice::from_raw_parts(ONE.as_ptr(), len) })
+}
+
 /// Replacement for `alloc::boxed::box_new_uninit` (what `Box::new` calls in Kani's toolchain): a bump allocator over a static array of
 /// 64 words (64 = CBMC's default field-sensitivity bound), so that boxed values - async_trait futures above all - are
 /// constant-folded like stack objects.  Only for harnesses that also stub deallocation (`nofree`); alignment <= 8.
